@@ -49,13 +49,20 @@ def ret_type(m):
     return {"unit": "()", "int": "i32", "str": "String"}[m["ret"]]
 
 
+GATE = {"none": "", "on": "#[cfg(all())] ", "off": "#[cfg(any())] "}
+
+
+def gate(m):
+    return GATE[m.get("gate", "none")]
+
+
 def gen_service(k, methods, attr="none"):
     """Rust module for accepted service k."""
     lines = ["mod s%d {" % k, "    use super::*;", "    " + ATTR[attr], "    pub trait Svc%d {" % k]
     for m in methods:
         args = ", ".join("a%d: %s" % (i, t) for i, t in enumerate(arg_types(m)))
         ret = "" if m["ret"] == "unit" else " -> %s" % ret_type(m)
-        lines.append("        async fn %s(%s)%s;" % (ident(m), args, ret))
+        lines.append("        %sasync fn %s(%s)%s;" % (gate(m), ident(m), args, ret))
     lines += ["    }", "    #[derive(Clone)]", "    pub struct Imp;", "    impl Svc%d for Imp {" % k]
     for j, m in enumerate(methods):
         tys = arg_types(m)
@@ -67,7 +74,7 @@ def gen_service(k, methods, attr="none"):
             val = "%d%s" % (1000 * (j + 1), "".join(" + a%d" % i for i, t in enumerate(tys) if t == "i32"))
         else:
             val = "format!(\"m%d:{}\", %s)" % (j, dbg)
-        lines.append("        async fn %s(self, ctx: tarpc::context::Context%s) -> %s {" % (ident(m), args, ret_type(m)))
+        lines.append("        %sasync fn %s(self, ctx: tarpc::context::Context%s) -> %s {" % (gate(m), ident(m), args, ret_type(m)))
         lines.append("            let args = %s;" % dbg)
         lines.append("            let ret: %s = %s;" % (ret_type(m), val))
         lines.append("            emit(\"ImplCall\", json!({\"svc\": %d, \"m\": \"%s\", \"args\": args, \"dl\": dl_of(&ctx), \"ret\": format!(\"{:?}\", ret)}));"
@@ -80,6 +87,8 @@ def gen_service(k, methods, attr="none"):
               "        tokio::spawn(server.execute(Imp.serve()).for_each(|f| async move { tokio::spawn(f); }));",
               "        let client = Svc%dClient::new(tarpc::client::Config::default(), tx).spawn();" % k]
     for j, m in enumerate(methods):
+        if m.get("gate") == "off":
+            continue  # the rpc does not exist
         tys = arg_types(m)
         vals = []
         for i, t in enumerate(tys):
@@ -132,7 +141,7 @@ def gen_main(accepted):
         parts.append(gen_service(k, sc["cfg"]["methods"], sc["cfg"].get("attr", "none")))
     parts.append("#[tokio::main(flavor = \"current_thread\")]\nasync fn main() {\n    base();")
     for k, sc in accepted:
-        meths = [{"name": "".join(m["name"]), "raw": bool(m.get("raw"))} for m in sc["cfg"]["methods"]]
+        meths = [{"name": "".join(m["name"]), "raw": bool(m.get("raw"))} for m in sc["cfg"]["methods"] if m.get("gate") != "off"]
         parts.append("    SCN.store(%d, Ordering::SeqCst);" % sc["scn"])
         parts.append("    emit(\"Reset\", json!({\"id\": %s, \"svc\": %d, \"svcname\": \"Svc%d\", \"accepted\": true, \"methods\": %s}));"
                      % (json.dumps(sc["id"]), k, k, "json!(%s)" % json.dumps(meths)))
@@ -147,7 +156,7 @@ def gen_rejected(k, methods, attr="none"):
     for m in methods:
         args = arg_list(m)
         ret = "" if m["ret"] == "unit" else " -> %s" % ret_type(m)
-        lines.append("    async fn %s(%s)%s;" % (ident(m), args, ret))
+        lines.append("    %sasync fn %s(%s)%s;" % (gate(m), ident(m), args, ret))
     lines += ["}", "fn main() {}"]
     return "\n".join(lines) + "\n"
 
@@ -169,12 +178,29 @@ def run_glue(wd, scheds, seed, tier):
     env = dict(os.environ, CARGO_NET_OFFLINE="true")
     trace = os.path.join(wd, "glue-run.ndjson")
     lines = []
-    # accepted: build + run
-    p = subprocess.run(["cargo", "build", "--offline", "--bin", "glue"] + C.repo_override() + GT, cwd=GLUE, env=env,
-                       stdout=subprocess.PIPE, stderr=subprocess.STDOUT, text=True)
-    if p.returncode != 0:
-        C.log(p.stdout[-3000:])
-        raise C.ToolError("generated glue program (accepted shapes) failed to compile")
+    # accepted: build + run.  A shape the specification predicts as accepted but that does not compile is taken out (and
+    # noted as drift of the prediction, not as a violation: nothing was miscompiled) so that the others are still executed.
+    uncompilable = []
+    for attempt in range(4):
+        p = subprocess.run(["cargo", "build", "--offline", "--bin", "glue", "--message-format", "short"] + C.repo_override() + GT, cwd=GLUE, env=env,
+                           stdout=subprocess.PIPE, stderr=subprocess.STDOUT, text=True)
+        if p.returncode == 0:
+            break
+        text = open(os.path.join(src, "main.rs")).read().splitlines()
+        starts = [(i + 1, int(m.group(1))) for i, l in enumerate(text) for m in [re.match(r"mod s(\d+) \{", l)] if m]
+        bad_mods = set()
+        for m in re.finditer(r"src/main\.rs:(\d+):\d+: error", p.stdout):
+            ln = int(m.group(1))
+            owner = [k for (st, k) in starts if st <= ln]
+            if owner:
+                bad_mods.add(owner[-1])
+        if not bad_mods or attempt == 3:
+            C.log(p.stdout[-3000:])
+            raise C.ToolError("generated glue program (accepted shapes) failed to compile")
+        uncompilable += [sc for k, sc in accepted if k in bad_mods]
+        accepted = [(k, sc) for k, sc in accepted if k not in bad_mods]
+        with open(os.path.join(src, "main.rs"), "w") as f:
+            f.write(gen_main(accepted))
     r = subprocess.run([os.path.join(GTARGET, "debug", "glue")], stdout=subprocess.PIPE, stderr=subprocess.PIPE,
                        text=True, timeout=600)
     if r.returncode != 0:
@@ -203,4 +229,5 @@ def run_glue(wd, scheds, seed, tier):
     with open(trace, "w") as f:
         f.write("\n".join(lines) + "\n")
     index = [dict(scn=s["scn"], id=s["id"], cfg=s["cfg"], steps=[]) for s in scheds]
-    return trace, dict(family="glue", executed=len(scheds), mismatches=[], index=index)
+    mism = [dict(id=s["id"], at=dict(step="compile"), what="predicted accepted, does not compile") for s in uncompilable]
+    return trace, dict(family="glue", executed=len(scheds) - len(uncompilable), mismatches=mism, index=index)
